@@ -117,6 +117,6 @@ func (o *c01Oracle) nontrivial() (bool, []string) {
 }
 
 func TestVerifC01(t *testing.T) {
-	standardTest(t, "C01", "TestVerifC01", runOpts{minLen: 5, maxLen: 80, captchaSometimes: true, gen: ircgen.Options{WithMoD: true}},
+	standardTest(t, "C01", "TestVerifC01", runOpts{minLen: 5, maxLen: 80, captchaSometimes: true, profileMix: true, gen: ircgen.Options{WithMoD: true}},
 		func(rec *vh.Recorder) oracle { return &c01Oracle{rec: rec} })
 }
